@@ -105,7 +105,8 @@ def read_case(draw):
         i = draw(st.sampled_from(numeric_dims))
         base = draw(st.sampled_from(spec["labels"][i]))
         tol = {"dim": i, "q": base + draw(st.sampled_from([0, 0.125, -0.25, 0.5, 1.0, -2.5])), "tol": draw(st.sampled_from([0.25, 0.5, 1.0, "inf"]))}
-    return {"mode": "read", "file": fs, "var": vi, "lidx": lidx, "pidx": pidx, "tol": tol, "keepdims": draw(st.booleans())}
+    return {"mode": "read", "file": fs, "var": vi, "lidx": lidx, "pidx": pidx, "tol": tol, "keepdims": draw(st.booleans()),
+            "by": draw(st.sampled_from(["label", "label", "position"]))}
 
 
 @st.composite
@@ -221,6 +222,13 @@ def enumerate_cases(tier):
                             others.append(o)
                         yield "multi-file-grid", {"mode": "multi", "file": fs, "others": others, "how": how, "cdim": cdim, "align": align, "sort": sort,
                                                   "keys": keys, "names": None}
+    # several variables created through ONE writable handle (h[name] = array): what one assignment needed (e.g. the fill value taken
+    # from the CF attribute `missing_value` of the first array) must not leak into the next: each later variable reads back as assigned
+    for first_missing in (None, -99, 0):
+        for vk in ("i", "f"):
+            for hmode in ("w", "a"):
+                for where in ("values", "labels", "both"):
+                    yield "one-handle-several-creations", {"mode": "onehandle", "missing": first_missing, "vk": vk, "hmode": hmode, "where": where}
 
 
 # ----------------------------------------------------------------------------------------------
@@ -386,6 +394,23 @@ def run_read(case, tmp):
             cl.add("read:slice")
     finally:
         h.close()
+    if case.get("by") == "position":
+        # the same comparison under the option indexing.by='position' (plain [] is positional, .ix toggles to labels): the on-disk
+        # handle and the loaded array, both created under the option, must still agree spelling by spelling
+        with core.options(indexing_by="position"):
+            A2 = da.read_nc(path)[name]
+            h2 = da.open_nc(path)
+            try:
+                v2 = h2[name]
+                sig = {"mode": "read-by-position"}
+                for sname, f, g in [("h[name][t] (by=position)", lambda: v2[pt], lambda: A2[pt]), ("h[name].ix[t] (by=position)", lambda: v2.ix[lt], lambda: A2.ix[lt]),
+                                    ("h[name].loc[t] (by=position)", lambda: v2.loc[lt], lambda: A2.loc[lt]), ("h[name].iloc[t] (by=position)", lambda: v2.iloc[pt], lambda: A2.iloc[pt]),
+                                    ("h[name].sel(**) (by=position)", lambda: v2.sel(**ldict), lambda: A2.sel(**ldict)),
+                                    ("h[name].isel(**) (by=position)", lambda: v2.isel(**pdict), lambda: A2.isel(**pdict))]:
+                    differential(f, g, base + "%s lidx=%s pidx=%s" % (sname, core.jsonable(lidx), core.jsonable(pidx)), sig)
+                cl.add("read:by-position")
+            finally:
+                h2.close()
     nontrivial = (nd >= 2 or "read:str-axis" in cl) and (bool(nonfull_l) or bool(nonfull_p))
     return {"classes": sorted(cl), "nontrivial": nontrivial}
 
@@ -562,11 +587,57 @@ def run_multi(case, tmp):
     return {"classes": sorted(cl), "nontrivial": True}
 
 
+def run_onehandle(case, tmp):
+    da = core.env.import_dimarray()
+    path = os.path.join(tmp, "oh.nc")
+    mv = case["missing"]
+    special = -99 if mv is None else mv
+    first = da.DimArray(np.array([[1.5, 2.5], [3.5, 4.5]]), axes=[da.Axis(np.array([10, 20]), "x"), da.Axis(np.array(["p", "q"], dtype=object), "y")])
+    if mv is not None:
+        first.attrs["missing_value"] = float(mv)
+    vals = np.array([[special, 1, 5], [7, special, 9]]) if case["where"] in ("values", "both") else np.array([[4, 1, 5], [7, 8, 9]])
+    zl = np.array([special, 3, 1]) if case["where"] in ("labels", "both") else np.array([6, 3, 1])
+    if case["vk"] == "f":
+        vals = vals + 0.0
+    second = da.DimArray(vals, axes=[da.Axis(np.array([10, 20]), "x"), da.Axis(zl, "z")])
+    third = da.DimArray(np.array([special, 2]) + (0.0 if case["vk"] == "f" else 0), axes=[da.Axis(np.array([special, 5]), "w")])
+    snaps = [core.snapshot(x) for x in (first, second, third)]
+    sig = {"mode": "onehandle"}
+    what = "one handle (mode=%r): h['a'] = array%s; h['b'] = %s; h['c'] = %s" % (case["hmode"], "" if mv is None else " with missing_value=%r" % mv,
+                                                                                 core.brief(second), core.brief(third))
+    if case["hmode"] == "a":
+        da.DimArray(np.array([1.0, 2.0]), axes=[da.Axis(np.array([10, 20]), "x")]).write_nc(path, "z0", mode="w")
+
+    def f():
+        h = da.open_nc(path, case["hmode"])
+        try:
+            h["a"] = first
+            h["b"] = second
+            h["c"] = third
+        finally:
+            h.close()
+    lib(f, what=what, sig=sig)
+    for x, sn in zip((first, second, third), snaps):
+        core.expect_unchanged(x, sn, what + " [assigned array]", sig)
+    h = da.open_nc(path)
+    try:
+        differential(lambda: da.read_nc(path, "b"), lambda: second, what + " read_nc(f, 'b')", sig)
+        differential(lambda: h["b"][:], lambda: second, what + " open_nc(f)['b'][:]", sig)
+        differential(lambda: h["b"].ix[1, [0, 1]], lambda: second.ix[1, [0, 1]], what + " open_nc(f)['b'].ix[1, [0, 1]]", sig)
+        differential(lambda: da.read_nc(path, "c"), lambda: third, what + " read_nc(f, 'c')", sig)
+        for nm, arr in (("b", second), ("c", third)):
+            got = lib(lambda: da.read_nc(path, nm), what=what, sig=sig)
+            check(got.values.dtype.kind == arr.values.dtype.kind, "dtype-kind", {"what": what, "var": nm, "got": str(got.values.dtype), "expected": str(arr.values.dtype)}, sig)
+    finally:
+        h.close()
+    return {"classes": ["onehandle"] + (["onehandle:missing_value"] if mv is not None else []), "nontrivial": True}
+
+
 def run_case(case):
     tmp = tempfile.mkdtemp(prefix="dimarray-c20-")
     _OUTCOMES.clear()
     try:
-        info = {"read": run_read, "write": run_write, "unlimited": run_unlimited, "multi": run_multi}[case["mode"]](case, tmp)
+        info = {"read": run_read, "write": run_write, "unlimited": run_unlimited, "multi": run_multi, "onehandle": run_onehandle}[case["mode"]](case, tmp)
         info["classes"] = sorted(set(info["classes"]) | set(_OUTCOMES))
         return info
     finally:
